@@ -7,8 +7,14 @@
  *   die:<k>       write the first k bytes of fmt(stdin), then SIGKILL itself
  *   badutf8       like ok but a 0xFF byte is inserted after the banner
  *   noread        exit 0 at once, without reading stdin or writing anything
+ *   failif:<n>    a pure function of the input: exit 1 without output when fnv1a(input) % n == 0,
+ *                 otherwise like ok (reads ALL input first) — "this formatter rejects some sources"
+ * With a file argument (`rustfmt [options] <file>`) the file is formatted IN PLACE, as rustfmt
+ * does: input = the file's content, output = the file's new content (nothing is written when the
+ * stand-in fails before producing output).
  * fmt(x) = banner line + x with every " ; " replaced by " ;\n" (one item per line).
  */
+#include <fcntl.h>
 #include <signal.h>
 #include <stdio.h>
 #include <stdlib.h>
@@ -18,6 +24,7 @@
 static const char BANNER[] = "// formatted by fake-rustfmt\n";
 
 static size_t out_count = 0, die_at = (size_t)-1;
+static int out_fd = 1;
 static void emit(const char *p, size_t n)
 {
     while (n) {
@@ -25,7 +32,7 @@ static void emit(const char *p, size_t n)
         if (die_at != (size_t)-1 && out_count + k > die_at) k = die_at - out_count;
         size_t off = 0;
         while (off < k) {
-            ssize_t w = write(1, p + off, k - off);
+            ssize_t w = write(out_fd, p + off, k - off);
             if (w <= 0) _exit(1);
             off += (size_t)w;
         }
@@ -48,12 +55,23 @@ static void feed(const char *buf, size_t n, int flush)
     if (flush && npend) { emit(pend, (size_t)npend); npend = 0; }
 }
 
-int main(void)
+int main(int argc, char **argv)
 {
     const char *mode = getenv("FAKE_RUSTFMT_MODE");
     if (!mode) mode = "ok";
     int status = 0, slurp = 0, bad = 0;
+    unsigned long long failif = 0;
     if (!strcmp(mode, "noread")) return 0;
+    if (!strncmp(mode, "failif:", 7)) { failif = strtoull(mode + 7, 0, 10); slurp = 1; }
+    /* in-place mode: the last argument that is not an option names the file */
+    const char *file = 0;
+    for (int i = 1; i < argc; i++) if (argv[i][0] != '-') file = argv[i];
+    int in_fd = 0;
+    if (file) {
+        in_fd = open(file, O_RDONLY);
+        if (in_fd < 0) return 1;
+        slurp = 1; /* the whole file is read before it is rewritten */
+    }
     if (!strcmp(mode, "exit1")) status = 1;
     else if (!strcmp(mode, "exit2")) status = 2;
     else if (!strcmp(mode, "exit3")) status = 3;
@@ -64,11 +82,22 @@ int main(void)
     if (slurp) {
         size_t cap = 1 << 20, len = 0; char *all = malloc(cap);
         ssize_t r;
-        while ((r = read(0, buf, sizeof buf)) > 0) {
+        while ((r = read(in_fd, buf, sizeof buf)) > 0) {
             if (len + (size_t)r > cap) { cap *= 2; all = realloc(all, cap); }
             memcpy(all + len, buf, (size_t)r); len += (size_t)r;
         }
+        if (failif) {
+            unsigned long long h = 0xcbf29ce484222325ULL;
+            for (size_t i = 0; i < len; i++) { h ^= (unsigned char)all[i]; h *= 0x100000001b3ULL; }
+            if (h % failif == 0) return 1;
+        }
+        if (file) {
+            close(in_fd);
+            out_fd = open(file, O_WRONLY | O_TRUNC);
+            if (out_fd < 0) return 1;
+        }
         emit(BANNER, sizeof BANNER - 1);
+        if (bad) emit("\xff", 1);
         feed(all, len, 1);
         return status;
     }
